@@ -61,6 +61,7 @@ ENTRIES: Dict[str, dict] = {
     "opProjectCorner": dict(mod="construct.operations.operation", cls="Operation", fn="project_corner"),
     "opProjectEdge": dict(mod="construct.operations.operation", cls="Operation", fn="project_edge"),
     "opUnchop": dict(mod="construct.operations.operation", cls="Operation", fn="unchop"),
+    "opChop": dict(mod="construct.operations.operation", cls="Operation", fn="chop"),
     "opSide": dict(mod="construct.operations.operation", cls="Operation", fn="project_side", follow=["get_index_from_side"]),
     "fromSeries": dict(mod="construct.operations.operation", cls="Operation", fn="from_series"),
     "blockAddEdge": dict(mod="items.block", cls="Block", fn="add_edge"),
@@ -368,6 +369,66 @@ class Translator:
                     self.fail(whole, f"self.{attr} is not initialised with a literal dict")
         self.fail(whole, f"no initialisation of self.{attr} found")
 
+    def instance_literal(self, owner, attr: str):
+        """("list", n) / ("dict", keys) when `__init__` of the class (or of a base class) sets `self.<attr>` to a list
+        literal of n elements / a dict literal with constant keys; None otherwise"""
+        if owner is None or not inspect.isclass(owner):
+            return None
+        for klass in owner.__mro__:
+            init = klass.__dict__.get("__init__")
+            if init is None or not inspect.isfunction(init):
+                continue
+            tree = ast.parse(textwrap.dedent(inspect.getsource(init)))
+            for node in ast.walk(tree):
+                target = None
+                if isinstance(node, ast.Assign) and len(node.targets) == 1:
+                    target, value = node.targets[0], node.value
+                elif isinstance(node, ast.AnnAssign):
+                    target, value = node.target, node.value
+                if isinstance(target, ast.Attribute) and isinstance(target.value, ast.Name) and target.value.id == "self" and target.attr == attr:
+                    if isinstance(value, ast.List) and not any(isinstance(e, ast.Starred) for e in value.elts):
+                        return ("list", len(value.elts))
+                    if isinstance(value, ast.Dict) and value.keys and all(isinstance(k, ast.Constant) and isinstance(k.value, int) for k in value.keys):
+                        return ("dict", [k.value for k in value.keys])
+                    return None
+        return None
+
+    def implicit_guards(self, st: ast.AST, owner, env) -> List[tuple]:
+        """the exceptions a statement raises by itself, as far as the source shows them syntactically: `self.<attr>[i]`
+        with `i` an argument and `self.<attr>` initialised with a list literal of n elements (IndexError unless
+        -n <= i < n: python's negative indexing included) or, when read, with a dict literal (KeyError unless i is a key)"""
+        out: List[tuple] = []
+        for node in ast.walk(st):
+            if not (isinstance(node, ast.Subscript) and isinstance(node.value, ast.Attribute) and isinstance(node.value.value, ast.Name) and node.value.value.id == "self"):
+                continue
+            idx = self.inline(node.slice, env)
+            if not isinstance(idx, ast.Name):
+                continue
+            lit = self.instance_literal(owner, node.value.attr)
+            if lit is None:
+                continue
+            x = ("var", idx.id)
+            if lit[0] == "list":
+                n = lit[1]
+                g = ("implicit", "IndexError", ("not", ("and", ("cmp", "le", ("int", -n), x), ("cmp", "lt", x, ("int", n)))))
+            elif isinstance(node.ctx, ast.Load):
+                g = ("implicit", "KeyError", ("not", ("iin", x, list(lit[1]))))
+            else:
+                continue
+            if g not in out:
+                out.append(g)
+        return out
+
+    def branch_implicit(self, body: List[ast.stmt], owner, env) -> List[tuple]:
+        out: List[tuple] = []
+        for st in body:
+            if isinstance(st, (ast.If, ast.For, ast.While, ast.Try, ast.With)):
+                return []
+            for g in self.implicit_guards(st, owner, env):
+                if g not in out:
+                    out.append(g)
+        return out
+
     # ---------------------------------------------------------------- statements
     @staticmethod
     def _raises(nodes) -> bool:
@@ -457,6 +518,10 @@ class Translator:
                                 env["names"].pop(n.id, None)
                     continue
                 ends_in_return = bool(st.body) and isinstance(st.body[-1], ast.Return) and not st.orelse
+                if st.orelse:  # the same subscript in both branches raises whatever the test says
+                    g1, g2 = self.branch_implicit(st.body, owner, env), self.branch_implicit(st.orelse, owner, env)
+                    if g1 and g1 == g2:
+                        out += g1
                 muts = self._mutations(st)
                 if ends_in_return:
                     out.append(("ret?", test, muts))  # translated lazily: only needed when a guard follows
@@ -492,6 +557,8 @@ class Translator:
             # plain statements: guarded helpers called here are inlined first, then bindings and mutations are recorded
             for call in self.called_followed(st):
                 out += self.inline_call(call, owner, env, path, depth)
+            if path is None and not isinstance(st, (ast.While, ast.Try, ast.With)):
+                out += self.implicit_guards(st, owner, env)
             if isinstance(st, (ast.Assign, ast.AnnAssign)):
                 targets = st.targets if isinstance(st, ast.Assign) else [st.target]
                 value = st.value
@@ -543,7 +610,7 @@ class Translator:
         env = {"names": {}, "selfattrs": {}}
         raw = self.stmts(fn.body, owner if self.spec.get("cls") else None, env, None, 0)
         # trailing statements after the last guard decide nothing
-        last = max((k for k, s in enumerate(raw) if s[0] in ("raise", "each")), default=-1)
+        last = max((k for k, s in enumerate(raw) if s[0] in ("raise", "each", "implicit")), default=-1)
         if last < 0:
             self.fail(None, "no guard found at this entry point")
         raw = raw[: last + 1]
@@ -558,7 +625,7 @@ class Translator:
                 if s[4] is not None:
                     self.fail(None, "loop around a guarded helper under a condition")
                 inner = [x for x in s[3]]
-                if any(x[0] not in ("raise", "ret", "mut") for x in inner):
+                if any(x[0] not in ("raise", "ret", "mut", "implicit") for x in inner):
                     self.fail(None, "unsupported statement inside a loop around a guarded helper")
                 out.append(("each", s[1], s[2], inner))
             else:
@@ -635,8 +702,8 @@ def _flat_c(c: tuple, out: list):
 
 
 def _flat_s(s: tuple, out: list):
-    if s[0] == "raise":
-        out.append(("raise", 0, s[1]))
+    if s[0] in ("raise", "implicit"):
+        out.append((s[0], 0, s[1]))
         _flat_c(s[2], out)
     elif s[0] == "ret":
         out.append(("ret", 0, ""))
@@ -783,8 +850,8 @@ def lean_term(t: tuple) -> str:
         return f"(.pairin {lean_term(t[1])} {lean_term(t[2])} [{', '.join(f'({a}, {b})' for a, b in t[3])}])"
     if tag == "shapeeq":
         return f"(.shapeeq {_ls(t[1])} [{', '.join(str(d) for d in t[2])}])"
-    if tag == "raise":
-        return f".raise {_ls(t[1])} {lean_term(t[2])}"
+    if tag in ("raise", "implicit"):
+        return f".{tag} {_ls(t[1])} {lean_term(t[2])}"
     if tag == "ret":
         return f".ret {lean_term(t[1])}"
     if tag == "mut":
